@@ -242,6 +242,14 @@ pub fn run(tape: &mut Tape, props: Props, p: &Params, trace_on: bool) -> Outcome
     let abort_side: Option<usize> = if !p.liveness && tape.draw(12) == 11 { Some(tape.draw(2) as usize) } else { tape.draw(1); None };
     let mut link = LinkCfg::draw(tape, if p.thorough { 120 } else { 40 });
     link.corrupt_ok = corrupt_ok;
+    let verifies = |c: &NodeCfg| -> [bool; 5] {
+        let mut v = [false; 5];
+        for k in 0..5 {
+            v[k] = c.csum[k] == 0 || c.csum[k] == 2;
+        }
+        v
+    };
+    link.rx_verify = Some([verifies(&cfgs[0]), verifies(&cfgs[1])]);
     // focus profile: a zero-window episode (node 1's application does not read for a while, node 0 has more
     // to send than node 1 can buffer) during which node 1's segments are duplicated in late bursts - stale
     // ACKs / window values arrive after the window has reopened - and node 0's segments are lossy
